@@ -304,6 +304,29 @@ def masses(cfg, rng_np):
         hi = tuple(slice(s - max(1, s // 2), s) for s in shape)
         m1[lo] = rng_np.uniform(0.5, 1.0, size=m1[lo].shape)
         m2[hi] = rng_np.uniform(0.5, 1.0, size=m2[hi].shape)
+    elif cfg.masses == "centre-zero" and sum(1 for n in shape if n > 1) == 1 and max(shape) >= 4:
+        # quasi-1-D grid: the mass-conserving flux is unique (prefix sums). Masses are derived from a random dyadic face flux with
+        # two opposite neighbouring entries, so that the flux reconstructed at one cell CENTRE vanishes while no face flux does
+        n = max(shape)
+        uf = np.array([rng_np.integers(1, 9) / 8.0 * rng_np.choice([-1.0, 1.0]) for _ in range(n - 1)])
+        j = int(rng_np.integers(0, n - 2))
+        uf[j + 1] = -uf[j]
+        fdiff = np.diff(np.concatenate([[0.0], uf, [0.0]]))  # net outflow per cell
+        m1 = (np.maximum(-fdiff, 0) + 0.25).reshape(shape)
+        m2 = (np.maximum(fdiff, 0) + 0.25).reshape(shape)
+        return m1, m2
+    elif cfg.masses in ("dipole", "centre-zero"):
+        # mass difference (-1, +2, -1) along the first axis with more than two cells: the two face fluxes around the middle cell
+        # are opposite, so the flux reconstructed at that cell's centre vanishes although no face flux does
+        m1 = np.full(shape, 0.5)
+        m2 = np.full(shape, 0.5)
+        ax = next((a for a, n in enumerate(shape) if n >= 3), None)
+        if ax is not None:
+            sl = [slice(None)] * len(shape)
+            for pos, (a1, a2) in enumerate(((1.0, 0.0), (0.0, 2.0), (1.0, 0.0))):
+                sl[ax] = pos
+                m1[tuple(sl)] += a1
+                m2[tuple(sl)] += a2
     else:  # single cell
         m1, m2 = np.zeros(shape), np.zeros(shape)
         m1[tuple(0 for _ in shape)] = 1.0
@@ -521,6 +544,9 @@ def recomputed(cfg, cap):
             J = call(cap["jacobian"], x)
             if isinstance(J, Raised):
                 break
+            dg = np.abs(np.asarray(J.diagonal()[:nf], dtype=float))
+            if nf and float(dg.min()) > 0 and float(dg.max() / dg.min()) > 1e10:
+                out["degenerate"] = True  # weights up to 1/regularisation: J x is dominated by rounding, recomputation meaningless
             out["residual"].append(float(np.linalg.norm(rhs - J @ x)))
             if j + 1 < len(fluxes):
                 out["flux_increment"].append(float(np.linalg.norm(fluxes[j + 1] - x[:nf])))
@@ -546,6 +572,8 @@ def criteria_met_at(cfg, hist, i, rc=None):
             # ones (a stored value that does not belong to the iterates makes the criteria count as not met)
             h2 = dict(hist)
             for key in ("residual", "flux_increment", "mass_conservation_residual"):
+                if rc and rc.get("degenerate") and key == "residual":
+                    continue  # degenerate mobility: the stored residual is used (see findings: degenerate-mobility)
                 if rc and len(rc.get(key, [])) > i and key in hist and len(hist[key]) > i:
                     mine, theirs = np.array(rc[key][: i + 1]), np.array(hist[key][: i + 1], dtype=float)
                     ok_ = np.all(np.abs(mine[[0, i]] - theirs[[0, i]]) <= 1e-7 * np.maximum(np.abs(mine[[0, i]]), 1e-300) + 1e-13)
@@ -576,7 +604,8 @@ def events_of(cfg, cap, fault, num_iter):
         n_done = fault[1] if cap["warned"] else n_done
     br = lambda i: 0 if cfg.method == "newton" else (0 if is_update_pass(cfg, i) else 1)
     rc = recomputed(cfg, cap) if "w" in cap else None
-    cap["recomputed_lengths"] = {k: len(v) for k, v in (rc or {}).items()}
+    cap["recomputed_lengths"] = {k: len(v) for k, v in (rc or {}).items() if isinstance(v, list)}
+    cap["degenerate_iterates"] = bool(rc and rc.get("degenerate"))
     ev = [("ok1" if criteria_met_at(cfg, hist, i, rc) else "ok0") + f":{br(i)}" for i in range(n_done)]
     broke = n_done > 0 and n_done - 1 > 1 and ev[-1].startswith("ok1")
     if not broke and n_done < num_iter:
@@ -619,7 +648,21 @@ def check_run(ctx, d, cfg, cap, fault, num_iter, label):
     iterative = cfg.solver in ("amg", "cg")
     # direct back-ends: backward-stable solve of a system whose unknowns and data have magnitude `scale`
     # (|D||u| + |f|, plus the masses the source is the difference of); iterative: configured rtol 1e-10 x ||f||, margin 100
-    tol = 1e4 * EPS * max(scale + cap.get("mass_scale", 0.0), 1e-300) * max(nf + nc, 1) + (1e-8 * float(np.linalg.norm(f)) if iterative else 0.0)
+    # mobility weights of the returned flux (what the next / last linear system is weighted with): when a cell-centre flux
+    # vanishes they reach 1/regularisation and the Schur complement D W^-1 D^T is numerically singular ("degenerate mobility").
+    # The LU solve is then still backward stable, but relative to |D| W^-1 |D^T| |p| with a huge pressure in the decoupled
+    # cells: that term is part of the linear-solver precision of the direct back-end.
+    fw = call(lambda: w._compute_face_weight(u)[0]) if nf else np.ones(0)
+    degenerate, sp_term = False, 0.0
+    if not isinstance(fw, Raised) and nf and np.all(np.isfinite(fw)) and float(np.min(np.abs(fw))) > 0:
+        Wd = np.abs(np.asarray(fw, dtype=float)) * np.abs(np.asarray(w.mass_matrix_faces.diagonal(), dtype=float))
+        degenerate = float(Wd.max() / Wd.min()) > 1e10
+        pabs = np.abs(cap["solution"][nf:nf + nc])
+        pabs = np.where(np.isfinite(pabs), pabs, 0.0)
+        aD = abs(w.div)
+        sp_term = float((aD @ ((aD.T @ pabs) / Wd)).max())
+    tol = 1e4 * EPS * max(scale + cap.get("mass_scale", 0.0) + (2 * sp_term if not iterative else 0.0), 1e-300) * max(nf + nc, 1) \
+        + (1e-8 * float(np.linalg.norm(f)) if iterative else 0.0)
     if err <= tol:
         ctx.cov["max_balance_err_over_tol"] = max(ctx.cov.get("max_balance_err_over_tol", 0.0), err / tol)
     else:
@@ -631,7 +674,8 @@ def check_run(ctx, d, cfg, cap, fault, num_iter, label):
         # input class in the signature: Anderson off / on / on with a numerically rank-deficient least-squares problem (the
         # recorded finding is only the last one), and full vs. reduced formulation
         aa_cls = "off" if not cfg.aa else ("degenerate-lstsq" if cap.get("aa_degenerate") else "on")
-        ctx.fail(f"{sig0}:mass-balance:anderson={aa_cls}:{'full' if cfg.formulation == 'full' else 'reduced'}-formulation",
+        deg = f":degenerate-mobility:{cfg.solver}" if (degenerate or cap.get("degenerate_iterates")) else ""
+        ctx.fail(f"{sig0}:mass-balance:anderson={aa_cls}:{'full' if cfg.formulation == 'full' else 'reduced'}-formulation{deg}",
                  f"returned flux violates the discrete mass balance: |D u - f|_inf = {err:.3e} > {tol:.3e} ({label})", rp)
     # (2) reported distance is the cost of exactly the returned flux
     cost = call(cap.get("cost", w.l1_dissipation), u)
@@ -673,6 +717,10 @@ def check_run(ctx, d, cfg, cap, fault, num_iter, label):
         elif cfg.method != "newton" and cfg.aa and cap.get("aa_degenerate") and not cap.get("pp_failed"):
             ctx.fail(f"C04:{cfg.method}._solve:pressure-non-finite:anderson=degenerate-lstsq:{cfg.solver}",
                      f"the returned pressure has non-finite entries ({int(p.size - finite_p.size)} of {p.size}; {label})", rp)
+        elif cap.get("degenerate_iterates") and cfg.solver in ("amg", "cg"):
+            ctx.fail(f"C04:{cfg.method}._solve:pressure-non-finite:degenerate-mobility:{cfg.solver}",
+                     f"the returned pressure has non-finite entries ({int(p.size - finite_p.size)} of {p.size}) after an iterative solve of a "
+                     f"numerically singular (degenerate mobility) system ({label})", rp)
         else:
             ctx.fail(f"C04:{cfg.method}._solve:pressure-non-finite",
                      f"the returned pressure has non-finite entries ({int(p.size - finite_p.size)} of {p.size}) outside the documented "
@@ -793,7 +841,7 @@ def configs(ctx):
         dim = len(shape)
         method = methods[i % 3]
         cfg = Config(
-            shape=list(shape), voxel=[2.0 ** rng.randint(-2, 0) for _ in range(dim)], masses=["dense", "compact", "single"][(i // 3) % 3],
+            shape=list(shape), voxel=[2.0 ** rng.randint(-2, 0) for _ in range(dim)], masses=["dense", "compact", "single", "dipole", "centre-zero"][(i // 3) % 5],
             method=method, l1=l1s[(i // 2) % 3], mobility=mobs[i % 5], formulation=pairs[(i * 2 + i // 5) % 5][0], solver=pairs[(i * 2 + i // 5) % 5][1],
             aa=[0, 2][(i // 2) % 2], aa_restart=([None, 2, 3][(i // 4) % 3] if (i // 2) % 2 else None),
             weighted=bool((i // 4) % 2), mseed=rng.randint(0, 10 ** 6),
@@ -812,6 +860,16 @@ def configs(ctx):
         cfg["fault_at"] = sorted({0, 1, rng.randint(2, k - 1) if k > 2 else 1}) if not ctx.big else list(range(0, min(k, 6)))
         # program points: all of them in the thorough tier; in quick the inner solve always plus a rotating pair
         cfg["points"] = list(POINTS) if ctx.big else ["linearSolve"] + [POINTS[(2 * i) % len(POINTS)], POINTS[(2 * i + 1) % len(POINTS)]]
+        out.append(cfg)
+    # degenerate mobility (builder b's lead): quasi-1-D grid, cell-centre flux vanishing in one cell, cell-centre L1 mode,
+    # every back-end of the default formulation
+    for sv in ("direct", "amg", "cg"):
+        shape = [(8,), (1, 6, 1), (5, 1)][len(out) % 3]
+        cfg = Config(shape=list(shape), voxel=[0.75] * len(shape), masses="centre-zero", method="newton", l1="CONSTANT_CELL_PROJECTION",
+                     mobility="CELL_BASED", formulation="pressure", solver=sv, aa=0, aa_restart=None, weighted=False,
+                     mseed=rng.randint(0, 10 ** 6), num_iter=6, tol=1e-10, tol_mode="all", L=1e-2)
+        cfg["fault_at"] = [0, 2]
+        cfg["points"] = ["linearSolve"]
         out.append(cfg)
     return out
 
